@@ -19,6 +19,18 @@
 //!   an arbiter's thread so that a backlog builds up behind them and is found in one go; `spawnn`
 //!   sends hundreds of commands (tokio's co-operative budget splits such a batch); `host N kept|dropped`:
 //!   the OS thread has hosted N Systems before (thread-locals must be overwritten, not kept).
+//! * C09 `batch <origin> <items…>`: a straight-line piece of client code — `s<code>` =
+//!   `stop_with_code`, `n<kind>` = `Arbiter::new` — run back to back with no await in between: on the
+//!   system thread before `run` (`sys-pre`: the whole message sequence is queued before the controller
+//!   is polled for the first time), inside one poll of a task on the system thread (`sys-task`), or
+//!   inside a task on an arbiter's thread (`arb:k`, so `Arbiter::new` is called from an arbiter).
+//!   Arbiters created *between* two stops are covered by the later stop.
+//! * C10 vias `t<g>` / `c<g>`: the command is sent by gate task `g` *while it holds its arbiter's
+//!   thread* — through a captured `ArbiterHandle` (`t`) or through `Arbiter::current()` (`c`, the
+//!   task's own arbiter only).  A task running ON the target arbiter sends to its own arbiter while
+//!   commands of other threads (or a stop) sit undrained in the channel.
+//! * `case <name> c09|c10 rt=custom`: `System::with_tokio_rt` / `Arbiter::with_tokio_rt` with a
+//!   caller-built runtime instead of `System::new` / `Arbiter::new`.
 use std::{
     collections::HashMap,
     future::Future,
@@ -68,11 +80,32 @@ enum Origin {
     Arb(usize),
 }
 
+/// one step of a piece of straight-line client code
+#[derive(Clone, Copy, PartialEq, Debug)]
+enum Action {
+    Stop(i32),
+    New(Kind),
+}
+
+/// `stop …` (one `Stop` action) or `batch …`: actions issued back to back from one origin
 #[derive(Clone, Debug)]
-struct StopSpec {
+struct Entry {
     origin: Origin,
-    code: i32,
+    actions: Vec<Action>,
+    /// issued only after every earlier entry has been acknowledged
     seq: bool,
+}
+
+impl Entry {
+    fn first_stop(&self) -> Option<(usize, i32)> {
+        self.actions.iter().enumerate().find_map(|(i, a)| match a {
+            Action::Stop(c) => Some((i, *c)),
+            _ => None,
+        })
+    }
+    fn news(&self) -> usize {
+        self.actions.iter().filter(|a| matches!(a, Action::New(_))).count()
+    }
 }
 
 #[derive(Clone, Copy, PartialEq, Debug)]
@@ -80,6 +113,8 @@ enum Via {
     Own,
     H1,
     H2,
+    /// sent by gate task `g` while it holds its thread; `true`: through `Arbiter::current()`
+    Task(usize, bool),
 }
 
 #[derive(Clone, Copy, PartialEq, Debug)]
@@ -109,8 +144,12 @@ enum Cmd10 {
 struct Scenario {
     proto: u8, // 9, 10, 0 = none
     done: bool,
+    /// `rt=custom` on the case line: `System::with_tokio_rt` / `Arbiter::with_tokio_rt`
+    custom_rt: bool,
     kinds: Vec<Kind>,
-    stops: Vec<StopSpec>,
+    entries: Vec<Entry>,
+    /// c09: a `batch` line exists
+    has_batch: bool,
     /// c09: arbiter whose process-wide number is made equal to the system's id
     align: Option<usize>,
     /// c10: number of command targets (arbiters incl. the system arbiter)
@@ -125,6 +164,8 @@ struct Scenario {
     task_arb: Vec<usize>,
     /// c10: per task: None = not a gate, Some(opened)
     task_gate: Vec<Option<bool>>,
+    /// c10: a `wait` line for this task exists (it has started when the director gets past that line)
+    task_waited: Vec<bool>,
     stopped: Vec<bool>, // c10: a stop command exists for this arbiter
 }
 
@@ -281,119 +322,202 @@ struct Out {
     t3: Vec<(String, String)>,
 }
 
+/// the runtime a caller of `with_tokio_rt` would build
+fn custom_tokio_rt() -> tokio::runtime::Runtime {
+    tokio::runtime::Builder::new_current_thread().enable_all().build().unwrap()
+}
+
+fn new_arbiter(custom: bool) -> Arbiter {
+    if custom {
+        Arbiter::with_tokio_rt(custom_tokio_rt)
+    } else {
+        Arbiter::new()
+    }
+}
+
+fn new_system_runner(custom: bool) -> actix_rt::SystemRunner {
+    if custom {
+        System::with_tokio_rt(custom_tokio_rt)
+    } else {
+        System::new()
+    }
+}
+
+/// `Arbiter::new()` (on the calling thread, which must belong to a System) plus the per-kind set-up;
+/// `after_new` runs in the very next statement after `Arbiter::new()` returned.
+/// Returns the slot and, for `early` / `done`, what `stop()` returned.
+fn make_slot(k: Kind, rng: &mut Rng, custom: bool, after_new: &mut dyn FnMut()) -> (ArbSlot, Option<bool>) {
+    let arb = new_arbiter(custom);
+    after_new();
+    let handle = arb.handle();
+    let ended = Arc::new(AtomicBool::new(false));
+    let g = Guard(ended.clone());
+    let name = Arc::new(Mutex::new(None));
+    let name2 = name.clone();
+    handle.spawn(async move {
+        let _g = g;
+        *name2.lock().unwrap() = thread::current().name().map(|s| s.to_string());
+        std::future::pending::<()>().await
+    });
+    let mut joined = None;
+    let mut early = None;
+    let arb = match k {
+        Kind::Early => {
+            jitter(rng);
+            early = Some(arb.stop());
+            Some(arb)
+        }
+        Kind::Done => {
+            jitter(rng);
+            early = Some(arb.stop());
+            joined = Some(join_watchdog(arb, WATCHDOG));
+            None
+        }
+        Kind::Dropped => {
+            drop(arb);
+            None
+        }
+        Kind::Running => Some(arb),
+        Kind::Busy => {
+            let rounds = 3 + rng.below(6);
+            let us = 100 + rng.below(1500) as u64;
+            let timer = rng.chance(1, 3);
+            handle.spawn(async move {
+                for _ in 0..rounds {
+                    thread::sleep(Duration::from_micros(us));
+                    if timer {
+                        actix_rt::time::sleep(Duration::from_millis(2)).await;
+                    } else {
+                        YieldN(1).await;
+                    }
+                }
+            });
+            Some(arb)
+        }
+    };
+    (ArbSlot { arb, handle, ended, joined, name }, early)
+}
+
+/// `System::stop()` is `stop_with_code(0)`: both spellings are used
+fn issue_stop(sys: &System, code: i32, plain: bool) {
+    if code == 0 && plain {
+        sys.stop()
+    } else {
+        sys.stop_with_code(code)
+    }
+}
+
+/// arbiters created by `n<kind>` actions, in the order created: (slot, what an `early` stop returned)
+type Late = Arc<Mutex<Vec<(ArbSlot, Option<bool>)>>>;
+
+/// the actions of one entry, back to back, on the calling thread (`sys`: None = `System::current()`)
+fn perform(actions: &[Action], sys: Option<&System>, rng: &mut Rng, custom: bool, plain: bool, late: &Late) {
+    for a in actions {
+        match a {
+            Action::Stop(c) => match sys {
+                Some(s) => issue_stop(s, *c, plain),
+                None => issue_stop(&System::current(), *c, plain),
+            },
+            Action::New(k) => {
+                let x = make_slot(*k, rng, custom, &mut || {});
+                late.lock().unwrap().push(x);
+            }
+        }
+    }
+}
+
+/// entry `b` happens-before entry `j`: some entry in `(b, j]` was issued only after all earlier acks
+fn entry_hb(entries: &[Entry], b: usize, j: usize) -> bool {
+    b < j && (b + 1..=j).any(|k| entries[k].seq)
+}
+
 fn exec_c09(sc: &Scenario, mode_run: bool, jseed: u64) -> Out {
     let n = sc.kinds.len();
     let kinds = sc.kinds.clone();
-    let stops = sc.stops.clone();
+    let entries = sc.entries.clone();
+    let ne = entries.len();
+    let custom = sc.custom_rt;
+    let plain = (jseed >> 3) & 1 == 0;
     let mut rng = Rng::new(jseed);
+    let late: Late = Arc::new(Mutex::new(vec![]));
+    let nlate: usize = entries.iter().map(|e| e.news()).sum();
 
-    // gates / acks, one per stop
+    // gates / acks, one per entry.  The ack sender is owned by the issuer alone: an issuer that can never
+    // run (its task was dropped with its runtime) disconnects the channel instead of making us wait.
     let mut gate_tx = vec![];
     let mut gate_rx = vec![];
     let mut ack_rx = vec![];
     let mut ack_tx = vec![];
-    for _ in &stops {
+    for _ in &entries {
         let (g, r) = tokio::sync::oneshot::channel::<()>();
         gate_tx.push(Some(g));
         gate_rx.push(Some(r));
         let (a, b) = mpsc::channel::<()>();
-        ack_tx.push(a);
+        ack_tx.push(Some(a));
         ack_rx.push(b);
     }
 
     let (setup_tx, setup_rx) = mpsc::channel();
     let (locked_tx, locked_rx) = mpsc::channel::<()>();
     let (res_tx, res_rx) = mpsc::channel::<Result<i32, String>>();
+    let (release_tx, release_rx) = mpsc::channel::<()>();
 
     // issuers that live on the system thread
     let mut sys_issuers = vec![];
-    for (i, s) in stops.iter().enumerate() {
-        if matches!(s.origin, Origin::SysPre | Origin::SysTask) {
-            sys_issuers.push((i, s.clone(), gate_rx[i].take().unwrap(), ack_tx[i].clone()));
+    for (i, e) in entries.iter().enumerate() {
+        if matches!(e.origin, Origin::SysPre | Origin::SysTask) {
+            sys_issuers.push((i, e.clone(), gate_rx[i].take().unwrap(), ack_tx[i].take().unwrap()));
         }
     }
     let mut rng_sys = Rng::new(jseed ^ 0x5151);
     let kinds2 = kinds.clone();
     let align = sc.align;
+    let late_sys = late.clone();
     thread::spawn(move || {
         // creation phase under the id lock (exclusive when the counters are being aligned)
         let excl = align.map(|_| ID_LOCK.write().unwrap_or_else(|e| e.into_inner()));
         let shared = if excl.is_none() { Some(ID_LOCK.read().unwrap_or_else(|e| e.into_inner())) } else { None };
         let shifted = align.map(align_counters).unwrap_or(false);
         let _ = locked_tx.send(());
-        let runner = System::new();
+        let runner = new_system_runner(custom);
         let sys = System::current();
         let mut slots = vec![];
         let mut early = vec![];
         // "immediate" flavour: the first stop, when it comes from the system thread before `run`,
         // is issued in the very next statement after the last `Arbiter::new()` returned — the
         // tightest race between that arbiter's `Register` and the `Exit`
-        let immediate = jseed % 3 == 0
-            && sys_issuers.first().map(|x| x.0 == 0 && x.1.origin == Origin::SysPre).unwrap_or(false);
+        let imm_code = match sys_issuers.first() {
+            Some((0, e, _, _)) if jseed % 3 == 0 && e.origin == Origin::SysPre && e.actions.len() == 1 => match e.actions[0] {
+                Action::Stop(c) => Some(c),
+                _ => None,
+            },
+            _ => None,
+        };
         let mut immediate_done = false;
         let nk = kinds2.len();
         for (ki, k) in kinds2.iter().enumerate() {
             jitter(&mut rng_sys);
-            let arb = Arbiter::new();
-            if immediate && ki + 1 == nk {
-                System::current().stop_with_code(sys_issuers[0].1.code);
-                let _ = sys_issuers[0].3.send(());
-                immediate_done = true;
-            }
-            let handle = arb.handle();
-            let ended = Arc::new(AtomicBool::new(false));
-            let g = Guard(ended.clone());
-            let name = Arc::new(Mutex::new(None));
-            let name2 = name.clone();
-            handle.spawn(async move {
-                let _g = g;
-                *name2.lock().unwrap() = thread::current().name().map(|s| s.to_string());
-                std::future::pending::<()>().await
+            let (slot, e) = make_slot(*k, &mut rng_sys, custom, &mut || {
+                if let (Some(c), true) = (imm_code, ki + 1 == nk) {
+                    System::current().stop_with_code(c);
+                    immediate_done = true;
+                }
             });
-            let mut joined = None;
-            let arb = match k {
-                Kind::Early => {
-                    jitter(&mut rng_sys);
-                    early.push(arb.stop());
-                    Some(arb)
-                }
-                Kind::Done => {
-                    jitter(&mut rng_sys);
-                    early.push(arb.stop());
-                    joined = Some(join_watchdog(arb, WATCHDOG));
-                    None
-                }
-                Kind::Dropped => {
-                    drop(arb);
-                    None
-                }
-                Kind::Running => Some(arb),
-                Kind::Busy => {
-                    let rounds = 3 + rng_sys.below(6);
-                    let us = 100 + rng_sys.below(1500) as u64;
-                    let timer = rng_sys.chance(1, 3);
-                    handle.spawn(async move {
-                        for _ in 0..rounds {
-                            thread::sleep(Duration::from_micros(us));
-                            if timer {
-                                actix_rt::time::sleep(Duration::from_millis(2)).await;
-                            } else {
-                                YieldN(1).await;
-                            }
-                        }
-                    });
-                    Some(arb)
-                }
-            };
-            slots.push(ArbSlot { arb, handle, ended, joined, name });
+            if let Some(e) = e {
+                early.push(e);
+            }
+            slots.push(slot);
         }
-        drop((shared, excl));
+        // a scenario that creates arbiters later on keeps the id lock (shared) until it is over
+        let hold = if nlate > 0 { shared } else { drop(shared); None };
+        drop(excl);
         let _ = setup_tx.send((sys.clone(), slots, early, shifted));
-        for (i, s, gate, ack) in sys_issuers {
+        for (i, e, gate, ack) in sys_issuers {
             if i == 0 && immediate_done {
+                let _ = ack.send(());
                 continue;
             }
-            match s.origin {
+            match e.origin {
                 Origin::SysPre => {
                     // blocks the system thread until the director opens the gate
                     if gate.blocking_recv().is_err() {
@@ -401,14 +525,16 @@ fn exec_c09(sc: &Scenario, mode_run: bool, jseed: u64) -> Out {
                         return;
                     }
                     jitter(&mut rng_sys);
-                    System::current().stop_with_code(s.code);
+                    perform(&e.actions, None, &mut rng_sys, custom, plain, &late_sys);
                     let _ = ack.send(());
                 }
                 Origin::SysTask => {
-                    let code = s.code;
+                    let late = late_sys.clone();
+                    let mut r = Rng::new(jseed ^ (0x99 + i as u64));
                     sys.arbiter().spawn(async move {
                         let _ = gate.await;
-                        System::current().stop_with_code(code);
+                        // one poll: no await between the actions
+                        perform(&e.actions, None, &mut r, custom, plain, &late);
                         let _ = ack.send(());
                     });
                 }
@@ -421,6 +547,10 @@ fn exec_c09(sc: &Scenario, mode_run: bool, jseed: u64) -> Out {
             runner.run_with_code().map_err(|e| format!("io:{e}"))
         };
         let _ = res_tx.send(r);
+        if hold.is_some() {
+            let _ = release_rx.recv_timeout(Duration::from_secs(60));
+        }
+        drop(hold);
     });
 
     let mut t3 = vec![];
@@ -441,39 +571,50 @@ fn exec_c09(sc: &Scenario, mode_run: bool, jseed: u64) -> Out {
     };
 
     // issuers on arbiter threads and foreign threads
-    for (i, s) in stops.iter().enumerate() {
-        let code = s.code;
-        match s.origin {
+    for (i, e) in entries.iter().enumerate() {
+        match e.origin {
             Origin::Arb(k) => {
                 let gate = gate_rx[i].take().unwrap();
-                let ack = ack_tx[i].clone();
+                let ack = ack_tx[i].take().unwrap();
+                let late = late.clone();
+                let actions = e.actions.clone();
+                let mut r = Rng::new(jseed ^ (0x99 + i as u64));
                 slots[k].handle.spawn(async move {
                     let _ = gate.await;
-                    System::current().stop_with_code(code);
+                    perform(&actions, None, &mut r, custom, plain, &late);
                     let _ = ack.send(());
                 });
             }
             Origin::Foreign => {
                 let gate = gate_rx[i].take().unwrap();
-                let ack = ack_tx[i].clone();
+                let ack = ack_tx[i].take().unwrap();
                 let sys = sys.clone();
+                let late = late.clone();
+                let actions = e.actions.clone();
                 let mut r = Rng::new(jseed ^ (0x77 + i as u64));
                 thread::spawn(move || {
                     let _ = gate.blocking_recv();
                     jitter(&mut r);
-                    sys.stop_with_code(code);
+                    perform(&actions, Some(&sys), &mut r, custom, plain, &late);
                     let _ = ack.send(());
                 });
             }
             _ => {}
         }
     }
-    // open the gates: the first at once, the second at once (race) or after the first's ack (seq)
+    // open the gates: the first at once; a later one at once (race) or after the acks of all earlier
+    // entries (seq).  An entry whose issuer is gone (channel disconnected) counts as answered.
     jitter(&mut rng);
-    let mut acked = vec![false; stops.len()];
-    for i in 0..stops.len() {
-        if i > 0 && stops[i].seq {
-            acked[i - 1] = ack_rx[i - 1].recv_timeout(WATCHDOG).is_ok();
+    let mut acked = vec![false; ne];
+    let mut asked = vec![false; ne];
+    for i in 0..ne {
+        if i > 0 && entries[i].seq {
+            for j in 0..i {
+                if !asked[j] {
+                    asked[j] = true;
+                    acked[j] = ack_rx[j].recv_timeout(WATCHDOG).is_ok();
+                }
+            }
         } else if i > 0 {
             jitter(&mut rng);
         }
@@ -495,7 +636,7 @@ fn exec_c09(sc: &Scenario, mode_run: bool, jseed: u64) -> Out {
         }
     };
 
-    // joins / loop-ended guards / post spawns
+    // joins / loop-ended guards / post spawns of the arbiters created before any stop
     let mut joins = vec![];
     let mut hung = false;
     for s in slots.iter_mut() {
@@ -517,9 +658,103 @@ fn exec_c09(sc: &Scenario, mode_run: bool, jseed: u64) -> Out {
     }
     let post: Vec<bool> = slots.iter().map(|s| s.handle.spawn_fn(|| {})).collect();
 
+    // ---- arbiters created by `n<kind>` actions ----
+    // Did the entry run at all?  (Its ack arrives after its last action; a dropped issuer disconnects.)
+    let mut ran = vec![true; ne];
+    for (i, e) in entries.iter().enumerate() {
+        if e.news() > 0 {
+            if !asked[i] {
+                asked[i] = true;
+                acked[i] = ack_rx[i].recv_timeout(WATCHDOG).is_ok();
+            }
+            ran[i] = acked[i];
+        }
+    }
+    let late_slots: Vec<(ArbSlot, Option<bool>)> = late.lock().unwrap().drain(..).collect();
+    // When `run` has returned, the controller is gone with its runtime: every `Stop` the system will
+    // ever send has been sent.  A probe sent now either finds a `Stop` ahead of it (the loop ends, the
+    // guard is dropped) or starts — then this arbiter was not stopped by the system (`o`, an orphan:
+    // stopped by the harness).  No timing involved.
+    let mut letters: Vec<&'static str> = vec![];
+    let mut late_t3: Vec<String> = vec![];
+    let mut li = 0usize;
+    let mut late_iter = late_slots.into_iter();
+    // winner: the stop whose code was returned, when codes identify it
+    let all_codes: Vec<i32> = entries.iter().flat_map(|e| e.actions.iter().filter_map(|a| if let Action::Stop(c) = a { Some(*c) } else { None })).collect();
+    let winner: Option<(usize, usize)> = code_s.parse::<i32>().ok().filter(|c| all_codes.iter().filter(|x| *x == c).count() == 1).and_then(|c| {
+        entries.iter().enumerate().find_map(|(j, e)| e.actions.iter().position(|a| *a == Action::Stop(c)).map(|q| (j, q)))
+    });
+    for (b, e) in entries.iter().enumerate() {
+        for (p, a) in e.actions.iter().enumerate() {
+            let Action::New(kind) = a else { continue };
+            li += 1;
+            if !ran[b] {
+                letters.push("-");
+                continue;
+            }
+            let Some((mut slot, early_ret)) = late_iter.next() else {
+                letters.push("-");
+                continue;
+            };
+            if early_ret == Some(false) {
+                late_t3.push("stop() on a freshly created arbiter returned false".into());
+            }
+            let started = Arc::new(AtomicBool::new(false));
+            let st = started.clone();
+            let accepted = res.is_ok() && slot.handle.spawn_fn(move || st.store(true, Ordering::SeqCst));
+            let t0 = Instant::now();
+            let lim = if hung { Duration::from_millis(500) } else { WATCHDOG };
+            while accepted && !slot.ended.load(Ordering::SeqCst) && !started.load(Ordering::SeqCst) && t0.elapsed() < lim {
+                thread::sleep(Duration::from_micros(200));
+            }
+            let ended_alone = (!accepted && res.is_ok() && wait_flag(&slot.ended, lim)) || slot.ended.load(Ordering::SeqCst);
+            let letter = if ended_alone { "e" } else { "o" };
+            letters.push(letter);
+            // which later stop had to reach it
+            let later_stop = e.actions[p + 1..].iter().find_map(|a| if let Action::Stop(c) = a { Some(*c) } else { None });
+            let why: Option<String> = if let (Origin::SysPre, Some(c)) = (&e.origin, later_stop) {
+                Some(format!("its Register and the later Exit({c}) of the same straight-line code were both queued before `run` was called"))
+            } else if let (Origin::SysTask, Some(c), true) = (&e.origin, later_stop, winner.map(|w| Some(w) == e.first_stop().map(|f| (b, f.0))).unwrap_or(false)) {
+                Some(format!("its Register and the later Exit({c}) were queued in the same poll as the Exit that delivered the code"))
+            } else if let Some((j, q)) = winner {
+                if (j == b && p < q) || entry_hb(&entries, b, j) {
+                    Some("Arbiter::new had returned before the stop that delivered the code was issued".to_string())
+                } else {
+                    None
+                }
+            } else {
+                None
+            };
+            if letter == "o" {
+                if let (Some(why), true) = (why, res.is_ok()) {
+                    late_t3.push(format!("arbiter #{} ({kind:?}, created by the batch from {:?}) was not stopped by the system: {why}", li - 1, e.origin));
+                }
+                slot.handle.stop();
+            }
+            if let Some(a) = slot.arb.take() {
+                let r = join_watchdog(a, lim);
+                if r != "ok" {
+                    hung |= r == "hang";
+                    late_t3.push(format!("join of arbiter #{} ({kind:?}, created by the batch): {r}", li - 1));
+                }
+            }
+            if !wait_flag(&slot.ended, lim) {
+                late_t3.push(format!("event loop of arbiter #{} ({kind:?}, created by the batch) did not end after stop()", li - 1));
+            }
+        }
+    }
+    let _ = release_tx.send(());
+
     // ---- T3: the property statement, directly on the observation ----
-    let c1 = stops[0].code;
-    let allowed: Vec<i32> = if stops.len() == 1 || stops[1].seq { vec![c1] } else { vec![c1, stops[1].code] };
+    // the code returned is that of the first Exit in the queue: the first stop of an entry that no other
+    // stop-issuing entry happens-before
+    let allowed: Vec<i32> = entries
+        .iter()
+        .enumerate()
+        .filter(|(i, _)| !(0..*i).any(|j| entries[j].first_stop().is_some() && entry_hb(&entries, j, *i)))
+        .filter_map(|(_, e)| e.first_stop().map(|f| f.1))
+        .collect();
+    let c1 = allowed.first().copied().unwrap_or(0);
     match &res {
         Err(_) => t3.push(("C09".into(), format!("run_with_code did not return within {WATCHDOG:?} after stop_with_code"))),
         Ok(_) => match code_s.parse::<i32>() {
@@ -547,6 +782,14 @@ fn exec_c09(sc: &Scenario, mode_run: bool, jseed: u64) -> Out {
     if early.iter().any(|b| !b) {
         t3.push(("C09".into(), "stop() on a freshly created arbiter returned false".into()));
     }
+    for (b, e) in entries.iter().enumerate() {
+        if e.origin == Origin::SysPre && e.news() > 0 && !ran[b] && res.is_ok() {
+            t3.push(("C09".into(), "the straight-line code in front of `run` did not complete".into()));
+        }
+    }
+    for m in late_t3 {
+        t3.push(("C09".into(), m));
+    }
 
     let b = |x: bool| if x { "1" } else { "0" };
     // was the requested coincidence of ids reached?  (1 / 0 / ? = the arbiter never ran a task)
@@ -557,8 +800,9 @@ fn exec_c09(sc: &Scenario, mode_run: bool, jseed: u64) -> Out {
             None => "?".to_string(),
         },
     };
+    let batch_s = if letters.is_empty() { "-".to_string() } else { letters.join(",") };
     let log = format!(
-        "code={} res={} joins={} ended={} early={} post={} aligned={aligned}",
+        "code={} res={} joins={} ended={} early={} post={} batch={batch_s} aligned={aligned}",
         code_s,
         if mode_run { res_s.as_str() } else { "-" },
         if joins.is_empty() { "-".to_string() } else { joins.join(",") },
@@ -568,7 +812,7 @@ fn exec_c09(sc: &Scenario, mode_run: bool, jseed: u64) -> Out {
     );
     let joinable = joins.iter().filter(|j| **j != "-").count();
     let verdict = format!(
-        "code={} res={} joins={}/{} ended={}/{} early={}/{} post={}/{}",
+        "code={} res={} joins={}/{} ended={}/{} early={}/{} post={}/{} batch={batch_s}",
         code_s,
         if mode_run { res_s.as_str() } else { "-" },
         joins.iter().filter(|j| **j == "ok").count(),
@@ -603,8 +847,20 @@ struct TaskLog {
     counts: Mutex<HashMap<usize, usize>>,
     /// drop flags of the `pend` futures: all of them must have been dropped when `join` returns
     guards: Mutex<Vec<(usize, Arc<AtomicBool>)>>,
-    /// the senders that open the `gate` tasks
-    gates: Mutex<HashMap<usize, mpsc::Sender<()>>>,
+    /// the senders that direct the `gate` tasks (open / send a command from inside the task)
+    gates: Mutex<HashMap<usize, mpsc::Sender<GateMsg>>>,
+    /// handles of all command targets, for commands sent from inside a gate task
+    handles: Mutex<Vec<ArbiterHandle>>,
+    /// return values of commands sent from inside gate tasks
+    gate_ack: Mutex<Option<mpsc::Sender<bool>>>,
+}
+
+/// what the director tells a task that holds its arbiter's thread
+enum GateMsg {
+    Open,
+    /// send a task to target `arb`: through `Arbiter::current()` (`cur`) or a captured handle
+    Spawn { arb: usize, cur: bool, kind: TaskKind, task: usize },
+    Stop { arb: usize, cur: bool },
 }
 
 impl TaskLog {
@@ -627,12 +883,27 @@ impl TaskLog {
     }
     fn open(&self, task: usize) {
         if let Some(tx) = self.gates.lock().unwrap().remove(&task) {
-            let _ = tx.send(());
+            let _ = tx.send(GateMsg::Open);
         }
     }
     fn open_all(&self) {
         for (_, tx) in self.gates.lock().unwrap().drain() {
-            let _ = tx.send(());
+            let _ = tx.send(GateMsg::Open);
+        }
+    }
+    /// have gate task `g` do something; false if it is not there to listen
+    fn tell(&self, g: usize, m: GateMsg) -> bool {
+        match self.gates.lock().unwrap().get(&g) {
+            Some(tx) => tx.send(m).is_ok(),
+            None => false,
+        }
+    }
+    /// the handle a task running on the current thread uses for target `arb`
+    fn handle_for(&self, arb: usize, cur: bool) -> ArbiterHandle {
+        if cur {
+            Arbiter::current()
+        } else {
+            self.handles.lock().unwrap()[arb].clone()
         }
     }
 }
@@ -690,12 +961,29 @@ fn do_spawn(h: &Sender10, kind: TaskKind, task: usize, log: Arc<TaskLog>) -> boo
         }),
         // holds the arbiter's thread until the director opens the gate: everything sent meanwhile
         // is found by the arbiter's loop in one go
+        // … and sends commands from inside, on the director's request: a task running ON an arbiter that
+        // sends (to its own arbiter or another) while its thread is held
         TaskKind::Gate => {
-            let (tx, rx) = mpsc::channel::<()>();
+            let (tx, rx) = mpsc::channel::<GateMsg>();
             log.gates.lock().unwrap().insert(task, tx);
             spf!(move || {
                 log.start(task);
-                let _ = rx.recv_timeout(Duration::from_secs(3));
+                let ack = log.gate_ack.lock().unwrap().clone();
+                let ack = move |r: bool| {
+                    if let Some(a) = &ack {
+                        let _ = a.send(r);
+                    }
+                };
+                loop {
+                    match rx.recv_timeout(Duration::from_secs(3)) {
+                        Ok(GateMsg::Spawn { arb, cur, kind, task }) => {
+                            let h = log.handle_for(arb, cur);
+                            ack(do_spawn(&Sender10::Handle(&h), kind, task, log.clone()));
+                        }
+                        Ok(GateMsg::Stop { arb, cur }) => ack(log.handle_for(arb, cur).stop()),
+                        Ok(GateMsg::Open) | Err(_) => break,
+                    }
+                }
             })
         }
     }
@@ -723,7 +1011,7 @@ struct Sys10 {
 /// thread hosts `n` other Systems one after the other, each of which does a little work (a local task;
 /// every other one also an arbiter that comes and goes); their runners are kept alive until the
 /// thread ends, or dropped at once.
-fn start_system(narb: usize, host: Option<(usize, bool)>) -> Result<Sys10, Out> {
+fn start_system(narb: usize, host: Option<(usize, bool)>, custom: bool) -> Result<Sys10, Out> {
     let fail = |what: &str, t3: bool| Out {
         log: format!("setup={what}"),
         verdict: format!("setup={what}"),
@@ -750,9 +1038,9 @@ fn start_system(narb: usize, host: Option<(usize, bool)>) -> Result<Sys10, Out> 
                 }
             }
         }
-        let runner = System::new();
+        let runner = new_system_runner(custom);
         let sys = System::current();
-        let arbs: Vec<Arbiter> = (0..narb).map(|_| Arbiter::new()).collect();
+        let arbs: Vec<Arbiter> = (0..narb).map(|_| new_arbiter(custom)).collect();
         drop(lock);
         let _ = setup_tx.send((sys, thread::current().id(), arbs));
         let r = runner.run_with_code().map_err(|e| e.to_string());
@@ -778,7 +1066,7 @@ fn exec_c10(sc: &Scenario, jseed: u64) -> Out {
     let nreal = narb - sc.sys_idx.map_or(0, |_| 1);
     let mut rng = Rng::new(jseed);
     let mut t3: Vec<(String, String)> = vec![];
-    let Sys10 { sys, sys_thread, arbs, res_rx } = match start_system(nreal, sc.host) {
+    let Sys10 { sys, sys_thread, arbs, res_rx } = match start_system(nreal, sc.host, sc.custom_rt) {
         Ok(x) => x,
         Err(out) => return out,
     };
@@ -789,12 +1077,17 @@ fn exec_c10(sc: &Scenario, jseed: u64) -> Out {
         counts: Mutex::new(HashMap::new()),
         guards: Mutex::new(vec![]),
         gates: Mutex::new(HashMap::new()),
+        handles: Mutex::new(vec![]),
+        gate_ack: Mutex::new(None),
     });
     // per target: the owner object (None for the system arbiter) and a handle
     let mut real = arbs.into_iter();
     let mut owners: Vec<Option<Arbiter>> = (0..narb).map(|a| if is_sys(a) { None } else { real.next() }).collect();
     let handles: Vec<ArbiterHandle> =
         owners.iter().map(|o| match o { Some(a) => a.handle(), None => sys.arbiter().clone() }).collect();
+    *log.handles.lock().unwrap() = handles.clone();
+    let (gate_ack_tx, gate_ack_rx) = mpsc::channel::<bool>();
+    *log.gate_ack.lock().unwrap() = Some(gate_ack_tx);
 
     // helper threads with cloned handles
     let mut helper_tx = vec![];
@@ -846,6 +1139,12 @@ fn exec_c10(sc: &Scenario, jseed: u64) -> Out {
                         let _ = helper_tx[i].send(HelperMsg::Spawn(*arb, *kind, *task));
                         ack_rx.recv_timeout(WATCHDOG).unwrap_or(false)
                     }
+                    Via::Task(g, cur) => {
+                        // the gate task was waited for: it holds its thread and listens
+                        log.started(*g)
+                            && log.tell(*g, GateMsg::Spawn { arb: *arb, cur: *cur, kind: *kind, task: *task })
+                            && gate_ack_rx.recv_timeout(WATCHDOG).unwrap_or(false)
+                    }
                 };
                 rets.push(r);
             }
@@ -859,6 +1158,11 @@ fn exec_c10(sc: &Scenario, jseed: u64) -> Out {
                         let i = if *via == Via::H1 { 0 } else { 1 };
                         let _ = helper_tx[i].send(HelperMsg::Stop(*arb));
                         ack_rx.recv_timeout(WATCHDOG).unwrap_or(false)
+                    }
+                    Via::Task(g, cur) => {
+                        log.started(*g)
+                            && log.tell(*g, GateMsg::Stop { arb: *arb, cur: *cur })
+                            && gate_ack_rx.recv_timeout(WATCHDOG).unwrap_or(false)
                     }
                 };
                 rets.push(r);
@@ -895,6 +1199,22 @@ fn exec_c10(sc: &Scenario, jseed: u64) -> Out {
             seq_at_join.push(usize::MAX);
             continue;
         };
+        // one run in four: sends through the OWNER object after the thread's loop has ended (seen through
+        // a handle: its channel refuses commands) are refused as well — `Arbiter::spawn/spawn_fn/stop`
+        if jseed % 4 == 3 {
+            let t0 = Instant::now();
+            let mut gone = !handles[ai].spawn_fn(|| {});
+            while !gone && t0.elapsed() < Duration::from_secs(2) {
+                thread::sleep(Duration::from_micros(200));
+                gone = !handles[ai].spawn_fn(|| {});
+            }
+            if gone {
+                let r = (a.spawn(async {}), a.spawn_fn(|| {}), a.stop());
+                if r != (false, false, false) {
+                    t3.push(("C10".into(), format!("arbiter {ai}: its channel is closed, but Arbiter::spawn/spawn_fn/stop on the owner returned {r:?}")));
+                }
+            }
+        }
         let r = join_watchdog(a, if hung { Duration::from_millis(500) } else { WATCHDOG });
         hung |= r == "hang";
         joins.push(r);
@@ -1132,7 +1452,7 @@ fn count_pre(sc: &Scenario, a: usize) -> usize {
 fn exec_ident(sc: &Scenario) -> Out {
     let narb = sc.narb;
     let mut t3 = vec![];
-    let Sys10 { sys, sys_thread, arbs, res_rx } = match start_system(narb, sc.host) {
+    let Sys10 { sys, sys_thread, arbs, res_rx } = match start_system(narb, sc.host, sc.custom_rt) {
         Ok(x) => x,
         Err(out) => return out,
     };
@@ -1336,6 +1656,7 @@ fn feed(sc: &mut Scenario, ws: &[&str]) -> LineRes {
             Some(&"c10") => 10,
             _ => 0,
         };
+        sc.custom_rt = ws[3.min(ws.len())..].contains(&"rt=custom");
         return LineRes::Plain("ok".into());
     }
     if sc.done {
@@ -1360,7 +1681,7 @@ fn feed(sc: &mut Scenario, ws: &[&str]) -> LineRes {
                 "done" => Kind::Done,
                 _ => return bad(),
             };
-            if sc.kinds.len() >= 3 || !sc.stops.is_empty() || sc.align.is_some() {
+            if sc.kinds.len() >= 3 || !sc.entries.is_empty() || sc.align.is_some() {
                 return bad();
             }
             sc.kinds.push(kind);
@@ -1369,7 +1690,7 @@ fn feed(sc: &mut Scenario, ws: &[&str]) -> LineRes {
         (9, ["align", k]) => {
             // after the `arb` lines, before the stops, once
             match parse_nat(k) {
-                Some(k) if k < sc.kinds.len() && sc.stops.is_empty() && sc.align.is_none() => {
+                Some(k) if k < sc.kinds.len() && sc.entries.is_empty() && sc.align.is_none() => {
                     sc.align = Some(k);
                     LineRes::Plain("ok".into())
                 }
@@ -1377,30 +1698,58 @@ fn feed(sc: &mut Scenario, ws: &[&str]) -> LineRes {
             }
         }
         (9, ["stop", o, c, rest @ ..]) => {
-            let origin = match *o {
-                "sys-pre" => Origin::SysPre,
-                "sys-task" => Origin::SysTask,
-                "foreign" => Origin::Foreign,
-                _ => match parse_prefixed(o, "arb:") {
-                    Some(k) if k < sc.kinds.len() && sc.kinds[k] != Kind::Early && sc.kinds[k] != Kind::Done => Origin::Arb(k),
-                    _ => return bad(),
-                },
-            };
+            let Some(origin) = parse_origin(sc, o, true) else { return bad() };
             let Some(code) = parse_i32(c) else { return bad() };
             let seq = match rest {
                 [] | ["seq"] => true,
                 ["race"] => false,
                 _ => return bad(),
             };
-            if sc.stops.len() >= 2 {
+            if !entry_ok(sc, &origin, seq) {
                 return bad();
             }
-            // a pre-run stop cannot be sequenced after one that needs the system to be running
-            if sc.stops.len() == 1 && seq && origin == Origin::SysPre && sc.stops[0].origin == Origin::SysTask {
-                return bad();
-            }
-            sc.stops.push(StopSpec { origin, code, seq });
+            sc.entries.push(Entry { origin, actions: vec![Action::Stop(code)], seq });
             LineRes::Plain("ok".into())
+        }
+        (9, ["batch", o, rest @ ..]) => {
+            // straight-line client code: `s<code>` = stop_with_code, `n<r|b|d|e>` = Arbiter::new (kind)
+            let Some(origin) = parse_origin(sc, o, false) else { return bad() };
+            let (items, seq) = match rest.last() {
+                Some(&"seq") => (&rest[..rest.len() - 1], true),
+                Some(&"race") => (&rest[..rest.len() - 1], false),
+                _ => (rest, true),
+            };
+            if items.is_empty() || items.len() > 5 {
+                return bad();
+            }
+            let mut actions = vec![];
+            for it in items {
+                let a = if let Some(c) = it.strip_prefix('s') {
+                    match parse_i32(c) {
+                        Some(c) => Action::Stop(c),
+                        None => return bad(),
+                    }
+                } else {
+                    match *it {
+                        "nr" => Action::New(Kind::Running),
+                        "nb" => Action::New(Kind::Busy),
+                        "nd" => Action::New(Kind::Dropped),
+                        "ne" => Action::New(Kind::Early),
+                        _ => return bad(),
+                    }
+                };
+                actions.push(a);
+            }
+            let e = Entry { origin, actions, seq };
+            // one batch per case; at most two arbiters created by it; not while the counters are aligned
+            if sc.has_batch || e.news() > 2 || (e.news() > 0 && sc.align.is_some()) || !entry_ok(sc, &e.origin, seq) {
+                return bad();
+            }
+            sc.has_batch = true;
+            let first = sc.kinds.len();
+            let ids: String = (0..e.news()).map(|i| format!(" a{}", first + i)).collect();
+            sc.entries.push(e);
+            LineRes::Plain(format!("ok{ids}"))
         }
         (9, ["go", m, j]) => {
             let mode_run = match *m {
@@ -1409,7 +1758,7 @@ fn feed(sc: &mut Scenario, ws: &[&str]) -> LineRes {
                 _ => return bad(),
             };
             let Some(j) = parse_prefixed(j, "j=") else { return bad() };
-            if sc.stops.is_empty() {
+            if !sc.entries.iter().any(|e| e.first_stop().is_some()) {
                 return bad();
             }
             sc.done = true;
@@ -1447,23 +1796,26 @@ fn feed(sc: &mut Scenario, ws: &[&str]) -> LineRes {
             LineRes::Plain(format!("ok a{}", sc.narb - 1))
         }
         (10, ["spawn", a, via, kind]) => {
-            let (Some(a), Some(via), Some(kind)) = (parse_nat(a), parse_via(via), parse_kind(kind)) else { return bad() };
+            let (Some(a), Some(kind)) = (parse_nat(a), parse_kind(kind)) else { return bad() };
             if a >= sc.narb || sc.nlines >= MAX_LINES || sc.ntask >= MAX_TASKS {
                 return bad();
             }
+            let Some(via) = parse_via(sc, a, via) else { return bad() };
             let task = sc.ntask;
             sc.ntask += 1;
             sc.nlines += 1;
             sc.task_arb.push(a);
             sc.task_gate.push(if kind == TaskKind::Gate { Some(false) } else { None });
+            sc.task_waited.push(false);
             sc.cmds.push(Cmd10::Spawn { arb: a, via, kind, task, burst: false });
             LineRes::Plain(format!("ok t{task}"))
         }
         (10, ["spawnn", a, via, kind, n]) => {
-            let (Some(a), Some(via), Some(kind), Some(n)) = (parse_nat(a), parse_via(via), parse_kind(kind), parse_nat(n)) else { return bad() };
+            let (Some(a), Some(kind), Some(n)) = (parse_nat(a), parse_kind(kind), parse_nat(n)) else { return bad() };
             if a >= sc.narb || sc.nlines >= MAX_LINES || !(2..=300).contains(&n) || sc.ntask + n > MAX_TASKS || kind == TaskKind::Gate {
                 return bad();
             }
+            let Some(via) = parse_via(sc, a, via) else { return bad() };
             sc.nlines += 1;
             let first = sc.ntask;
             for i in 0..n {
@@ -1471,15 +1823,17 @@ fn feed(sc: &mut Scenario, ws: &[&str]) -> LineRes {
                 sc.ntask += 1;
                 sc.task_arb.push(a);
                 sc.task_gate.push(None);
+                sc.task_waited.push(false);
                 sc.cmds.push(Cmd10::Spawn { arb: a, via, kind, task, burst: i > 0 });
             }
             LineRes::Plain(format!("ok t{first}..t{}", sc.ntask - 1))
         }
         (10, ["stop", a, via]) => {
-            let (Some(a), Some(via)) = (parse_nat(a), parse_via(via)) else { return bad() };
+            let Some(a) = parse_nat(a) else { return bad() };
             if a >= sc.narb || sc.nlines >= MAX_LINES {
                 return bad();
             }
+            let Some(via) = parse_via(sc, a, via) else { return bad() };
             sc.nlines += 1;
             sc.stopped[a] = true;
             sc.cmds.push(Cmd10::Stop { arb: a, via });
@@ -1495,6 +1849,7 @@ fn feed(sc: &mut Scenario, ws: &[&str]) -> LineRes {
                 return bad();
             }
             sc.nlines += 1;
+            sc.task_waited[t] = true;
             sc.cmds.push(Cmd10::Wait { task: t });
             LineRes::Plain("ok".into())
         }
@@ -1535,12 +1890,49 @@ fn feed(sc: &mut Scenario, ws: &[&str]) -> LineRes {
     }
 }
 
-fn parse_via(s: &str) -> Option<Via> {
+/// where an entry is issued from (`foreign`: a thread that belongs to no System — stops only)
+fn parse_origin(sc: &Scenario, o: &str, foreign_ok: bool) -> Option<Origin> {
+    match o {
+        "sys-pre" => Some(Origin::SysPre),
+        "sys-task" => Some(Origin::SysTask),
+        "foreign" if foreign_ok => Some(Origin::Foreign),
+        _ => match parse_prefixed(o, "arb:") {
+            Some(k) if k < sc.kinds.len() && sc.kinds[k] != Kind::Early && sc.kinds[k] != Kind::Done => Some(Origin::Arb(k)),
+            _ => None,
+        },
+    }
+}
+
+/// at most three entries; an entry on the system thread in front of `run` cannot be made to wait for the
+/// acknowledgement of one that needs the system to be running
+fn entry_ok(sc: &Scenario, origin: &Origin, seq: bool) -> bool {
+    let i = sc.entries.len();
+    if i >= 3 {
+        return false;
+    }
+    // acks awaited before this entry's gate opens: those of all entries in front of the last `seq` one
+    let k = if i > 0 && seq { i } else { (1..i).rev().find(|j| sc.entries[*j].seq).unwrap_or(0) };
+    !(*origin == Origin::SysPre && sc.entries[..k].iter().any(|e| e.origin == Origin::SysTask))
+}
+
+/// `own` | `h1` | `h2` | `t<g>` | `c<g>` — the last two: sent by gate task `g`, which has been waited for
+/// and is still closed; `c` = through `Arbiter::current()`, so only to the gate task's own arbiter
+fn parse_via(sc: &Scenario, target: usize, s: &str) -> Option<Via> {
     match s {
         "own" => Some(Via::Own),
         "h1" => Some(Via::H1),
         "h2" => Some(Via::H2),
-        _ => None,
+        _ => {
+            let (g, cur) = match (parse_prefixed(s, "t"), parse_prefixed(s, "c")) {
+                (Some(g), _) => (g, false),
+                (_, Some(g)) => (g, true),
+                _ => return None,
+            };
+            if g >= sc.ntask || sc.task_gate[g] != Some(false) || !sc.task_waited[g] || (cur && sc.task_arb[g] != target) {
+                return None;
+            }
+            Some(Via::Task(g, cur))
+        }
     }
 }
 
@@ -1758,8 +2150,124 @@ fn directed_c09(w: &mut dyn Write, rng: &mut Rng, thorough: bool) {
     }
 }
 
+/// codes that identify the stop they came from: all different within a scenario
+fn distinct_codes(rng: &mut Rng, n: usize, zero_first: bool) -> Vec<i32> {
+    let mut pool = vec![0, 1, 2, 3, 7, 9, -1, -3, 255, 42, -128];
+    let mut v = vec![];
+    if zero_first {
+        v.push(pool.remove(0));
+    }
+    while v.len() < n {
+        v.push(pool.remove(rng.below(pool.len())));
+    }
+    v
+}
+
+/// one `batch` scenario: `pattern` over {s, n}; `others`: 0 none, 1 a foreign stop sequenced after the
+/// batch, 2 a foreign stop racing it, 3 a sequenced stop from another origin in front of it, 4 a stop
+/// on the system thread in front of `run` racing it, 5 a later stop from a task on the system thread
+fn write_batch_c09(w: &mut dyn Write, name: &str, rng: &mut Rng, kinds: &[usize], origin: &str, pattern: &str, others: usize, mode: &str, custom: bool) {
+    let ns = pattern.bytes().filter(|b| *b == b's').count();
+    let zero_first = mode == "run" && rng.chance(1, 2);
+    let codes = distinct_codes(rng, ns + 1, zero_first);
+    let (mut ci, extra) = (0, codes[ns]);
+    let items: Vec<String> = pattern
+        .bytes()
+        .map(|b| {
+            if b == b's' {
+                ci += 1;
+                format!("s{}", codes[ci - 1])
+            } else {
+                format!("n{}", ["r", "r", "b", "d", "e"][rng.below(5)])
+            }
+        })
+        .collect();
+    writeln!(w, "case {name} c09{}", if custom { " rt=custom" } else { "" }).unwrap();
+    for k in kinds {
+        writeln!(w, "arb {}", KINDS9[*k]).unwrap();
+    }
+    // a stop in front of the batch must not need the running system if the batch runs in front of `run`
+    let front = if origin == "sys-pre" { "foreign" } else { ["foreign", "sys-task"][rng.below(2)] };
+    match others {
+        3 => writeln!(w, "stop {front} {extra}\nbatch {origin} {} seq", items.join(" ")).unwrap(),
+        4 => writeln!(w, "stop sys-pre {extra}\nbatch {origin} {} race", items.join(" ")).unwrap(),
+        _ => writeln!(w, "batch {origin} {}", items.join(" ")).unwrap(),
+    }
+    match others {
+        1 => writeln!(w, "stop foreign {extra} seq").unwrap(),
+        2 => writeln!(w, "stop foreign {extra} race").unwrap(),
+        5 => writeln!(w, "stop sys-task {extra} race").unwrap(),
+        _ => {}
+    }
+    if ns == 0 && !matches!(others, 1..=5) {
+        writeln!(w, "stop foreign {extra} seq").unwrap();
+    }
+    writeln!(w, "go {mode} j={}", rng.next() % 1_000_000).unwrap();
+}
+
+/// Directed `batch` scenarios (both tiers, in front): message sequences queued before the controller
+/// first runs / within one poll on the system thread / from an arbiter's thread; arbiters created
+/// between two stops; three stops; `Arbiter::new` called on an arbiter thread.
+fn directed_batch_c09(w: &mut dyn Write, rng: &mut Rng, thorough: bool) {
+    const R: usize = 2;
+    const B: usize = 3;
+    const D: usize = 1;
+    let n = std::cell::Cell::new(0usize);
+    let one = |w: &mut dyn Write, rng: &mut Rng, kinds: &[usize], origin: &str, pattern: &str, others: usize| {
+        let k = n.get();
+        let mode = if k % 2 == 0 { "code" } else { "run" };
+        write_batch_c09(w, &format!("b{k}"), rng, kinds, origin, pattern, others, mode, k % 5 == 4);
+        n.set(k + 1);
+    };
+    // the history `stop; Arbiter::new; stop` and its neighbours, from every origin
+    for (origin, kinds) in [("sys-pre", &[][..]), ("sys-task", &[][..]), ("sys-pre", &[R][..]), ("sys-task", &[B][..]), ("arb:0", &[R][..]), ("arb:1", &[D, B][..])] {
+        for pattern in ["sns", "snns", "ns", "sn", "sss", "nsns"] {
+            if !thorough && n.get() >= 12 && rng.chance(1, 2) {
+                continue;
+            }
+            one(w, rng, kinds, origin, pattern, 0);
+        }
+    }
+    for (origin, kinds) in [("sys-pre", &[R][..]), ("sys-task", &[R][..]), ("arb:0", &[B, R][..])] {
+        for others in 1..=5usize {
+            for pattern in ["sns", "nn", "n", "ssn"] {
+                if !thorough && !rng.chance(1, 3) {
+                    continue;
+                }
+                one(w, rng, kinds, origin, pattern, others);
+            }
+        }
+    }
+    if thorough {
+        // every pattern of length ≤ 4 over {s, n} with at most two `n`, every origin, every neighbourhood
+        for rep in 0..2 {
+            for len in 1..=4usize {
+                for code in 0..(1usize << len) {
+                    let pattern: String = (0..len).map(|i| if (code >> i) & 1 == 0 { 's' } else { 'n' }).collect();
+                    if pattern.bytes().filter(|b| *b == b'n').count() > 2 {
+                        continue;
+                    }
+                    for (oi, origin) in ["sys-pre", "sys-task", "arb:0"].iter().enumerate() {
+                        for others in 0..=5usize {
+                            let kinds: Vec<usize> = match (oi, (rep + code + others) % 3) {
+                                (2, 0) => vec![R],
+                                (2, _) => vec![B, rng.below(5)],
+                                (_, 0) => vec![],
+                                (_, 1) => vec![rng.below(5)],
+                                _ => vec![R, rng.below(5)],
+                            };
+                            one(w, rng, &kinds, origin, &pattern, others);
+                        }
+                    }
+                }
+            }
+        }
+    }
+}
+
 fn gen_c09(a: &Args, w: &mut dyn Write) {
     let mut rng = Rng::new(a.seed ^ 0xC09);
+    directed_batch_c09(w, &mut rng, a.tier == "thorough");
     directed_c09(w, &mut rng, a.tier == "thorough");
     if a.tier == "thorough" {
         // the whole space: 0..3 arbiters × kinds × origin × code × 1–2 stops, 3 repetitions
@@ -1810,9 +2318,34 @@ fn gen_c09(a: &Args, w: &mut dyn Write) {
                 }
                 stops.push((o2, *rng.pick(&[0, 9, 1]), m));
             }
+            if stops.len() == 2 && rng.chance(1, 3) {
+                // a third stop
+                let o3 = rng.pick(&origins).clone();
+                let sys_task_in_front = stops.iter().any(|s| s.0 == "sys-task");
+                let m = if o3 == "sys-pre" && sys_task_in_front { "race" } else { ["seq", "race"][rng.below(2)] };
+                stops.push((o3, *rng.pick(&[5, -7, 0]), m));
+            }
             let mode = if rng.chance(1, 2) { "code" } else { "run" };
             let align = if na > 0 && rng.chance(1, 3) { Some(rng.below(na)) } else { None };
             write_c09(w, &format!("q{n}"), &kinds, align, &stops, mode, rng.next() % 1_000_000);
+        }
+        // seeded batches
+        for n in 0..24 {
+            let origin = ["sys-pre", "sys-task", "arb:0"][rng.below(3)];
+            let mut kinds: Vec<usize> = (0..rng.below(3)).map(|_| rng.below(5)).collect();
+            if origin == "arb:0" {
+                kinds.insert(0, [1, 2, 3][rng.below(3)]);
+                kinds.truncate(3);
+            }
+            let len = rng.range(1, 5);
+            let mut pattern = String::new();
+            for _ in 0..len {
+                let nn = pattern.bytes().filter(|b| *b == b'n').count();
+                pattern.push(if nn < 2 && rng.chance(2, 5) { 'n' } else { 's' });
+            }
+            let mode = if rng.chance(1, 2) { "code" } else { "run" };
+            let (others, custom) = (rng.below(6), rng.chance(1, 6));
+            write_batch_c09(w, &format!("qb{n}"), &mut rng, &kinds, origin, &pattern, others, mode, custom);
         }
     }
     // malformed / not applicable: answered `bad-op` identically by both sides
@@ -1820,6 +2353,8 @@ fn gen_c09(a: &Args, w: &mut dyn Write) {
     writeln!(w, "case bad2 c09\narb running\narb running\narb running\narb running\nspawn 0 own fn\ngo code").unwrap();
     writeln!(w, "case bad3\narb running\nstop sys-pre 0\ngo code j=0").unwrap();
     writeln!(w, "case bad4 c09\nalign 0\narb done\nalign 1\nalign x\nalign 0\nalign 0\narb running\nstop arb:0 1\nstop foreign 1\nalign 0\ngo code j=2").unwrap();
+    writeln!(w, "case bad5 c09 rt=custom\narb running\nbatch\nbatch foreign s1\nbatch sys-pre\nbatch sys-pre seq\nbatch arb:1 s1\nbatch sys-pre s1 nx\nbatch sys-pre sx\nbatch sys-pre s1 s2 s3 s4 s5 s6\nbatch sys-pre nr nr nr\nbatch sys-pre nr seq race\nbatch sys-pre nr\ngo code j=1\nbatch sys-task s1\nstop sys-task 1\nstop sys-pre 2 seq\nstop sys-pre 3 race\nstop foreign 4\ngo code j=3").unwrap();
+    writeln!(w, "case bad6 c09\narb running\nalign 0\nbatch sys-pre s1 nr\nbatch sys-pre s1 s-2\nbatch sys-pre s2\nstop sys-task 5\nstop sys-pre 6 race\nstop sys-pre 7\ngo run j=4").unwrap();
 }
 
 const KINDS10: [&str; 8] = ["fn", "fut", "pend", "yield", "sleep", "panic", "fnpanic", "block"];
@@ -1838,6 +2373,22 @@ fn directed_c10(w: &mut dyn Write, rng: &mut Rng, n: &mut usize, thorough: bool)
         }
     };
     let s = |x: &str| x.to_string();
+    // (0) a task running ON an arbiter sends while its thread is held: to its own arbiter through
+    // `Arbiter::current()` (`c0`) or a captured handle (`t0`), behind commands / a stop other threads
+    // have already sent; to another arbiter; stopping its own arbiter
+    for tgt in ["arb", "sysarb"] {
+        // FIFO: a remote command, then the self-send, then a remote one
+        case(w, &[s(tgt), s("spawn 0 own gate"), s("wait t0"), s("spawn 0 h1 fn"), s("spawn 0 c0 fut"), s("spawn 0 own fn"), s("open t0"), s("wait t3"), s("stop 0 own")], rng);
+        // nothing sent after stop() starts: the stop is queued, then the task sends to its own arbiter
+        case(w, &[s(tgt), s("spawn 0 own gate"), s("wait t0"), s("stop 0 own"), s("spawn 0 c0 fn"), s("spawn 0 t0 fut"), s("open t0")], rng);
+        // the task stops its own arbiter, with commands on both sides
+        case(w, &[s(tgt), s("spawn 0 h2 gate"), s("wait t0"), s("spawn 0 t0 fn"), s("spawn 0 h1 pend"), s("stop 0 c0"), s("spawn 0 c0 fn"), s("spawn 0 own fn"), s("open t0")], rng);
+        // a long self-sent backlog behind a short remote one
+        case(w, &[s(tgt), s("spawn 0 own gate"), s("wait t0"), s("spawnn 0 h1 fn 3"), s("spawnn 0 c0 fn 140"), s("spawn 0 h2 fut"), s("stop 0 h1"), s("spawnn 0 t0 fut 20"), s("open t0")], rng);
+    }
+    // from a task on one arbiter to another arbiter (and to the system arbiter)
+    case(w, &[s("arb"), s("arb"), s("spawn 0 own gate"), s("wait t0"), s("spawn 1 h1 fn"), s("spawn 1 t0 fn"), s("spawn 1 own fn"), s("wait t3"), s("stop 1 t0"), s("spawn 1 t0 fn"), s("spawn 0 c0 fn"), s("stop 0 own"), s("open t0")], rng);
+    case(w, &[s("sysarb"), s("arb"), s("spawn 1 own gate"), s("wait t0"), s("spawn 0 t0 fn"), s("spawn 0 own fn"), s("wait t2"), s("spawn 1 c0 fn"), s("stop 1 c0"), s("stop 0 t0"), s("open t0")], rng);
     // (1) the system arbiter as a target
     case(w, &[s("sysarb"), s("spawn 0 own fn"), s("wait t0"), s("stop 0 own")], rng);
     case(w, &[s("sysarb"), s("spawn 0 h1 fut"), s("spawn 0 own pend"), s("wait t1"), s("stop 0 h2"), s("spawn 0 own fn")], rng);
@@ -1921,7 +2472,7 @@ fn gen_c10(a: &Args, w: &mut dyn Write) {
         let mut held: Vec<Option<usize>> = vec![None; narb]; // closed gate on this target
         let mut tasks: Vec<usize> = vec![]; // task -> arb
         let style = [0, 0, 1, 2][rng.below(4)]; // 0: racing stops, 1: wait for the last task then stop, 2: mixed
-        if rng.chance(1, 4) {
+        if rng.chance(1, 3) {
             // hold one target's thread: what follows piles up behind the gate
             let arb = rng.below(narb);
             writeln!(w, "spawn {arb} {} gate\nwait t0", VIAS[rng.below(3)]).unwrap();
@@ -1930,7 +2481,19 @@ fn gen_c10(a: &Args, w: &mut dyn Write) {
         }
         for _ in 0..len {
             let arb = rng.below(narb);
-            let via = VIAS[rng.below(3)];
+            // while a gate task holds a thread, a third of the commands are sent from inside it
+            let inside = (0..narb).find(|a| held[*a].is_some()).filter(|_| rng.chance(1, 3)).map(|ga| {
+                let g = held[ga].unwrap();
+                if ga == arb && rng.chance(2, 3) {
+                    format!("c{g}")
+                } else {
+                    format!("t{g}")
+                }
+            });
+            let via: &str = match &inside {
+                Some(v) => v.as_str(),
+                None => VIAS[rng.below(3)],
+            };
             if rng.chance(1, 5) && style != 1 {
                 writeln!(w, "stop {arb} {via}").unwrap();
                 stopped[arb] = true;
@@ -2006,6 +2569,27 @@ fn gen_c10(a: &Args, w: &mut dyn Write) {
             }
         }
     }
+    // (2b) thorough: every sequence of length ≤ 4 (system arbiter: ≤ 3) over commands sent by other threads
+    // and from inside the gate task that holds the target's thread
+    if thorough {
+        let alpha = ["spawn 0 h1 fn", "spawn 0 c0 fn", "spawn 0 t0 pend", "stop 0 own", "stop 0 c0"];
+        for (tgt, maxlen) in [("arb", 4usize), ("sysarb", 3)] {
+            for len in 1..=maxlen {
+                for code in 0..5usize.pow(len as u32) {
+                    let seq: Vec<usize> = (0..len).map(|i| (code / 5usize.pow(i as u32)) % 5).collect();
+                    writeln!(w, "case f{n} c10\n{tgt}\nspawn 0 own gate\nwait t0").unwrap();
+                    n += 1;
+                    for s in &seq {
+                        writeln!(w, "{}", alpha[*s]).unwrap();
+                    }
+                    if !seq.iter().any(|s| *s >= 3) {
+                        writeln!(w, "stop 0 {}", ["own", "c0", "h1"][code % 3]).unwrap();
+                    }
+                    writeln!(w, "open t0\ngo j={}", rng.next() % 1_000_000).unwrap();
+                }
+            }
+        }
+    }
     // (3) identity and block_on
     for narb in 0..=2 {
         writeln!(w, "case ident{narb} c10").unwrap();
@@ -2025,6 +2609,7 @@ fn gen_c10(a: &Args, w: &mut dyn Write) {
     writeln!(w, "case bad2 c10\narb\nspawn 0 own fn\nident\narb early\nstop sys-pre 1").unwrap();
     writeln!(w, "case bad3 c10\nhost 0 kept\nhost 4 kept\nhost 1 gone\nhost 2 kept\nhost 1 dropped\nsysarb\nsysarb\narb\narb\narb\nident\nspawn 1 own gate\nspawn 1 own fn\nwait t1\nwait t0\nopen t1\nopen t0\nopen t0\nwait t1\nspawnn 1 own fn 1\nspawnn 1 own fn 301\nspawnn 1 own gate 5\nspawnn 1 h1 fn 3\nspawnn 0 own fut 300\nspawnn 0 own fut 100\nstop 0 own\nstop 1 own\ngo j=9\nstop 2 h2\ngo j=9").unwrap();
     writeln!(w, "case bad4 c10\narb\nhost 1 kept\nspawn 0 own fn\nsysarb\nstop 0 own\ngo j=1").unwrap();
+    writeln!(w, "case bad5 c10 rt=custom\narb\narb\nspawn 0 c0 fn\nspawn 0 own gate\nspawn 0 c0 fn\nspawn 0 t0 fn\nwait t0\nspawn 1 c0 fn\nspawn 0 c1 fn\nspawn 0 t9 fn\nspawn 0 tx fn\nspawn 1 t0 fn\nspawnn 0 c0 fn 3\nstop 1 c0\nstop 1 t0\nopen t0\nspawn 0 c0 fn\nstop 0 t0\nstop 0 own\ngo j=2").unwrap();
 }
 
 fn gen(a: &Args) {
